@@ -208,6 +208,7 @@ def run(tier, seed):
                           'distinct = distinct (operation, arguments); non-trivial = an Instantiate is involved '
                           '(for simplify/destructuring: at the head)')
     return R.finish(level='proof', trusted_base=C.TRUSTED_COMMON + [
+        'translators/pypattern.py (Python ast -> coq/Gen/PyPattern.v, fail closed; dynamic dispatch = generated recursive call)',
         'harness/impl/pat_runner.py + harness/pycodec.py (term codec), harness/pygen.py reference expansion/'
         'substitution/matching (oracle only)',
         'frozendict keys are unique and iterate in insertion order (modelled as association lists)'])
